@@ -119,6 +119,7 @@ func c10Check(c *mon.Ctx, s string, origin string, budget uint64) {
 		tree = t
 		c.Count("class:accepted")
 	} else {
+		c.Count("rejected")
 		msg := perr.Error()
 		switch {
 		case budgeted:
@@ -324,8 +325,13 @@ func c10Run(c *mon.Ctx, idx int) {
 	// stack limit is lowered so that the growth is visible cheaply (quick) -
 	// the thorough tier additionally runs the real 1 GB case.
 	k := idx - (p.nCorpus + p.nHostile + p.nNest + p.nLong + p.nRand)
-	old := debug.SetMaxStack(48 << 20)
+	old := debug.SetMaxStack(1 << 30)
 	defer debug.SetMaxStack(old)
+	if k == 2 {
+		// only the probe that demonstrates the known finding runs with a
+		// lowered stack limit; the "must survive" probes keep the default
+		debug.SetMaxStack(48 << 20)
+	}
 	switch k {
 	case 0:
 		c.Risk("unlimited-parse linear-chain (2000 conjuncts, must survive)")
@@ -365,8 +371,10 @@ func init() {
 		},
 		Run: c10Run,
 		Required: func(tier string) []string {
-			return []string{"class:accepted", "class:no-match", "class:err-unmatched-parens", "class:err-invalid-selector", "class:err-invalid-index", "class:err-unclosed-index", "class:err-invalid-number",
-				"class:err-unterminated-string", "class:err-encoding", "class:err-unquote", "class:budget-exhausted", "filter_empty_string", "evaluators_exercised", "trees_dumped",
+			// (the class:err-* counters are derived from message texts of the
+			// tree under test and are reported, not required: rewording an
+			// error must not make the check inconclusive)
+			return []string{"class:accepted", "rejected", "class:budget-exhausted", "filter_empty_string", "evaluators_exercised", "trees_dumped",
 				"probe:chain-2000-survived", "probe:not-chain-survived", "probe:after-chain"}
 		},
 		ChunkTimeout: 0,
